@@ -12,7 +12,7 @@ from .contracts_tt import _is_tt, check_returned
 from .dense import dense_cores, tt_consistent, dense_b_cores
 
 P = 'C15'
-LAST_HOCUR = {'exact': None}  # whether the last hocur call reproduced its tensor (used by the AMUSEt-HOCUR contract)
+LAST_HOCUR = {'exact': None, 'wrong': None}  # whether the last hocur call reproduced its tensor (used by the AMUSEt-HOCUR contract)
 
 
 def pristine(functions):
@@ -60,6 +60,21 @@ def data_tensor_class(x, bl, cols=None):
         if np.any((s > 1e-15 * s[0]) & (s <= 1e-10 * s[0])):
             return 'gapless'
     return 'regular'
+
+
+def true_ranks(x, bl):
+    """TT ranks (1e-10 relative) of the transformed data tensor at its p inner bonds (the last one: towards the snapshot mode)"""
+    x = np.asarray(x)
+    m = x.shape[1]
+    with probe.oracle():
+        factors = [np.array([[float(f(x[:, j])) for j in range(m)] for f in fl]) for fl in pristine(bl)]
+    n = [f.shape[0] for f in factors]
+    T = product_tensor(factors)
+    out = []
+    for k in range(1, len(n) + 1):
+        s = np.linalg.svd(T.reshape(int(np.prod(n[:k])), -1), compute_uv=False)
+        out.append(max(1, int(np.sum(s > 1e-10 * s[0]))))
+    return out
 
 
 def parse(names, defaults, args, kwargs):
@@ -212,6 +227,17 @@ def _li_cols_post(st, res, args, kwargs):
         pass
 
 
+def _extract_post(st, res, args, kwargs):
+    # numerical rank of every candidate submatrix the library extracts (the first p of a call belong to the first half sweep: all
+    # candidate columns of a bond, before any selection)
+    try:
+        y = np.array(res, dtype=float)
+        sv = np.linalg.svd(y, compute_uv=False) if y.size else np.zeros(0)
+        HOCUR_STATE['ex'].append((int(np.sum(sv > 1e-8 * sv[0])) if sv.size and sv[0] > 0 else 0, int(y.shape[1]) if y.ndim == 2 else -1))
+    except Exception:
+        HOCUR_STATE['ex'].append((-1, -1))
+
+
 class Hocur(probe.Contract):
     freeze = True  # the oracle sees the arguments as they were at call entry; arrays / lists rewritten by the call are reported
     input_prop = P
@@ -222,6 +248,7 @@ class Hocur(probe.Contract):
         HOCUR_STATE['zero_block'] = False
         HOCUR_STATE['li'] = []
         HOCUR_STATE['mv'] = []
+        HOCUR_STATE['ex'] = []
         v = parse(['x', 'basis_list', 'ranks', 'repeats', 'multiplier', 'progress', 'string'], {'repeats': 1, 'multiplier': 10}, args, kwargs)
         return {'plain': snapshot_plain(args, kwargs), 'ranks': copy.deepcopy(v.get('ranks')), 'x': np.array(v['x'], copy=True)}
 
@@ -240,6 +267,7 @@ class Hocur(probe.Contract):
             c.check(self.api, 'data_unchanged', np.array_equal(np.asarray(v['x']), st['x']), [], prop=P)
             v['ranks'] = st['ranks']  # what was requested at call time
         LAST_HOCUR['exact'] = None
+        LAST_HOCUR['wrong'] = None  # set when the HOCUR oracle DECIDED that the decomposition is not what it has to be
         x, bl = np.asarray(v['x']), v['basis_list']
         m = x.shape[1]
         n = [len(f) for f in bl]
@@ -300,14 +328,19 @@ class Hocur(probe.Contract):
             # than the tensor's unfolding; a reduction although every sampled submatrix had full rank is not that fallback.
             # Observed at the library's own column search (first half sweep, one search per bond): the number of columns it kept must
             # be min(independent columns found, requested rank); then the reduction is explained by the sample.
-            li, mv = HOCUR_STATE['li'][:p], HOCUR_STATE['mv'][:p]
-            deficient = len(li) < p or len(mv) < p or all(mv[k] == min(li[k][1], req[k + 1]) for k in range(p))
+            # The independent columns are to be looked for among ALL candidate columns of the bond (multiplier x rank of them - the
+            # documented purpose of `multiplier`): the search must have found at least the well separated (1e-8) numerical rank of
+            # the candidate submatrix the library extracted.
+            li, mv, ex = HOCUR_STATE['li'][:p], HOCUR_STATE['mv'][:p], HOCUR_STATE.get('ex', [])[:p]
+            deficient = len(li) < p or len(mv) < p or len(ex) < p or any(e[0] < 0 for e in ex) or \
+                all(mv[k] == min(li[k][1], req[k + 1]) and li[k][1] >= min(ex[k][0], req[k + 1]) for k in range(p))
             c.events['hocur_returned_reduced_ranks'] += 1
             if deficient:
                 c.skip('hocur_returned_reduced_ranks')
                 return
+            LAST_HOCUR['wrong'] = 'ranks reduced although the candidate columns are not deficient'
             c.check(self.api, 'ranks_reduced_only_when_sampled_columns_are_deficient', False, ['snapshots=1' if m == 1 else 'snapshots>1'],
-                    {'true_ranks': true, 'requested': req, 'returned': got_r, 'sampled_submatrix_ranks_and_columns_found': li, 'columns_kept': mv}, prop=P)
+                    {'true_ranks': true, 'requested': req, 'returned': got_r, 'sampled_submatrix_ranks_and_columns_found': li, 'columns_kept': mv, 'candidate_submatrix_rank_and_columns': ex}, prop=P)
             return
         c.check(self.api, 'ranks_reduced_only_when_sampled_columns_are_deficient', True, ['snapshots=1' if m == 1 else 'snapshots>1'], prop=P)
         if large:
@@ -326,6 +359,7 @@ class Hocur(probe.Contract):
                 worst, scale = max(worst, float(np.max(np.abs(gv - wv)))), max(scale, float(np.max(np.abs(wv))))
             err = worst / max(scale, 1e-300)
             LAST_HOCUR['exact'] = err <= 1e-10
+            LAST_HOCUR['wrong'] = None if err <= 1e-6 else 'does not reproduce the tensor although the ranks suffice (rel. error %.2e)' % err
             c.check(self.api, 'reproduces_tensor_when_ranks_suffice', err <= 1e-6, ['snapshots=1' if m == 1 else 'snapshots>1', 'many_modes_sampled_entries'],
                     {'rel_err_on_200_sampled_fibres': err, 'modes': n, 'snapshots': m, 'true_ranks': true, 'requested': req, 'returned': got_r}, prop=P)
             c.events['hocur_decided'] += 1
@@ -336,6 +370,7 @@ class Hocur(probe.Contract):
         sc = max(float(np.linalg.norm(want)), 1e-300)
         err = float(np.linalg.norm(got - want)) / sc
         LAST_HOCUR['exact'] = err <= 1e-10
+        LAST_HOCUR['wrong'] = None if err <= 1e-7 + 1e-10 / smin_rel else 'does not reproduce the tensor although the ranks suffice (rel. error %.2e)' % err
         # a cross approximation recovers the directions belonging to small singular values only up to eps / sigma_min
         c.check(self.api, 'reproduces_tensor_when_ranks_suffice', err <= 1e-7 + 1e-10 / smin_rel, ['snapshots=1' if m == 1 else 'snapshots>1'],
                 {'rel_err': err, 'smallest_relative_singular_value': smin_rel, 'modes': n, 'snapshots': m, 'true_ranks': true, 'requested': req, 'returned': got_r}, prop=P)
@@ -355,5 +390,6 @@ def install():
     probe.install(tr, 'gram', Gram(), replace_everywhere=True)
     probe.install(tr, 'hocur', Hocur(), replace_everywhere=True)
     probe.hook(tr, '__hocur_find_li_cols', 'transform.__hocur_find_li_cols', post=_li_cols_post)
+    probe.hook(tr, '__hocur_extract_matrix', 'transform.__hocur_extract_matrix', post=_extract_post)
     tr.__vt_c15__ = True
     return tr
